@@ -110,7 +110,7 @@ pub enum SavedPx {
 pub fn save_price(w: &World, b: usize) -> SavedPx {
     match &w.banks[b].oracle {
         OracleD::Pyth(k) | OracleD::Staked { oracle: k, .. } | OracleD::Venue { oracle: k, .. } => SavedPx::Pyth(w.pyth[k]),
-        OracleD::Swb(k) => SavedPx::Swb(w.swb[k]),
+        OracleD::Swb(k) | OracleD::VenueSwb { oracle: k, .. } => SavedPx::Swb(w.swb[k]),
         _ => SavedPx::None,
     }
 }
@@ -118,7 +118,7 @@ pub fn restore_price(w: &mut World, b: usize, s: SavedPx) {
     let now = w.chain.now();
     match (w.banks[b].oracle.clone(), s) {
         (OracleD::Pyth(k), SavedPx::Pyth(p)) | (OracleD::Staked { oracle: k, .. }, SavedPx::Pyth(p)) | (OracleD::Venue { oracle: k, .. }, SavedPx::Pyth(p)) => w.set_pyth(&k, PythPx { publish_time: now, ..p }),
-        (OracleD::Swb(k), SavedPx::Swb(p)) => w.set_swb(&k, SwbPx { last_update: now, ..p }),
+        (OracleD::Swb(k), SavedPx::Swb(p)) | (OracleD::VenueSwb { oracle: k, .. }, SavedPx::Swb(p)) => w.set_swb(&k, SwbPx { last_update: now, ..p }),
         _ => {}
     }
 }
@@ -133,7 +133,7 @@ pub fn scale_price(w: &mut World, b: usize, f: f64) {
             p.publish_time = w.chain.now();
             w.set_pyth(&k, p);
         }
-        OracleD::Swb(k) => {
+        OracleD::Swb(k) | OracleD::VenueSwb { oracle: k, .. } => {
             let mut p = w.swb[&k];
             p.value = ((p.value as f64 * f) as i128).max(1);
             p.std_dev = (p.std_dev as f64 * f) as i128;
